@@ -23,7 +23,7 @@ class _Widths(dict):
         import unicodedata
 
         o = ord(c)
-        zero = unicodedata.combining(c) or 0x200B <= o <= 0x200D or 0xE0100 <= o <= 0xE01EF or 0x1160 <= o <= 0x11FF
+        zero = unicodedata.combining(c) or 0x200B <= o <= 0x200D or 0xFE00 <= o <= 0xFE0F or 0xE0100 <= o <= 0xE01EF or 0x1160 <= o <= 0x11FF
         w = 0 if zero else (2 if unicodedata.east_asian_width(c) in ("W", "F") else 1)
         self[c] = w
         return w
@@ -291,7 +291,7 @@ def shard(args):
     tier, seed, idx, nshards = args
     acc = Acc(seed=seed, sample_stride=19997)
     thorough = tier == "thorough"
-    sigma = ("a", "Ｅ", "̀", "漢") if thorough else ("a", "Ｅ", "̀")
+    sigma = ("a", "Ｅ", "̀", "漢", "\u200d") if thorough else ("a", "Ｅ", "̀", "\u200d")  # U+200D: zero width, combining class 0
     maxlen = 5 if thorough else 4
     i = 0
     for n in range(maxlen + 1):
@@ -309,7 +309,7 @@ def shard(args):
                     if i % nshards == idx:
                         check_value(acc, spec, how)
     # longer strings (8, 16, 17, 33 characters) built from repeating patterns, cut into 1, 2, 5 and 8 runs
-    for pat in ("a", "Ｅ", "a漢", "Ｅ\u0300a", "a\u0300\u0300Ｅ", "ＥＥa"):
+    for pat in ("a", "Ｅ", "a漢", "Ｅ\u0300a", "a\u0300\u0300Ｅ", "ＥＥa", "Ｅ\u200d", "Ｅ\ufe0f漢\u1160", "\u203c\ufe0fa", "\u2764\ufe0fＥ\u200d", "a\ufe0e"):
         for total in (8, 16, 17, 33):
             text = (pat * total)[:total]
             for nruns in (1, 2, 5, 8):
